@@ -3,6 +3,7 @@ package harness
 import (
 	"bytes"
 	"encoding/base64"
+	"encoding/binary"
 	"encoding/hex"
 	"encoding/json"
 	"fmt"
@@ -491,6 +492,61 @@ func TestC20(t *testing.T) {
 			cl3.Print(&w)
 			ls.check("Client.Print(conflicting keytab entries)", w.Bytes())
 		})
+	}
+	// --- password change: a peer that sends the client's own KRB-PRIV back as the "reply" (the request holds
+	// the new password; the reply is decrypted with the same subkey) ---
+	{
+		newPw := fmt.Sprintf("New-%x-secret", rng.Bytes(6))
+		ls.secrets = append(ls.secrets, newSecret("new-password", []byte(newPw)))
+		cn := types.PrincipalName{NameType: 1, NameString: []string{c09User}}
+		kdc := startFuncKDC(func(req []byte) []byte {
+			var a messages.ASReq
+			if a.Unmarshal(req) != nil {
+				return nil
+			}
+			rq := kdcReqInfo{cname: a.ReqBody.CName, realm: a.ReqBody.Realm, nonce: a.ReqBody.Nonce, sname: a.ReqBody.SName, addrs: a.ReqBody.Addresses, padata: a.PAData}
+			rc := baseRep(false, 18, "password")
+			pas := hintsFor(rc.hints, rc.et, c09Realm, cn)
+			key, err := kdcClientKey(rc, cn, pas)
+			if err != nil {
+				return nil
+			}
+			var sk types.EncryptionKey
+			reply, err := mintKDCRepKey(rng, rc, rq, key, pas, time.Now(), &sk)
+			if err != nil {
+				return nil
+			}
+			return reply
+		})
+		// the password service: reflects the KRB-PRIV of the request behind a syntactically valid AP-REP
+		kp := startFuncKDC(func(req []byte) []byte {
+			if len(req) < 6 {
+				return nil
+			}
+			al := int(binary.BigEndian.Uint16(req[4:6]))
+			if 6+al > len(req) {
+				return nil
+			}
+			priv := req[6+al:]
+			ar, _ := marshalAPRep(messages.APRep{EncPart: types.EncryptedData{EType: 18, Cipher: []byte("12345678")}})
+			out := []byte{0, 0, 0, 1, byte(len(ar) >> 8), byte(len(ar))}
+			out = append(append(out, ar...), priv...)
+			binary.BigEndian.PutUint16(out, uint16(len(out)))
+			return out
+		})
+		conf := fmt.Sprintf("[libdefaults]\n default_realm = %s\n dns_lookup_kdc = false\n udp_preference_limit = 1\n noaddresses = true\n[realms]\n %s = {\n  kdc = 127.0.0.1:%d\n  kpasswd_server = 127.0.0.1:%d\n }\n", c09Realm, c09Realm, kdc.port, kp.port)
+		cfgP, _ := config.NewFromString(conf)
+		var lb bytes.Buffer
+		cl4 := client.NewWithPassword(c09User, c09Realm, clientPassword, cfgP, client.DisablePAFXFAST(true), client.Logger(log.New(&lb, "", 0)))
+		Protect(func() {
+			ok, err := cl4.ChangePasswd(newPw)
+			ls.err("Client.ChangePasswd(reflected request)", err)
+			v.Note(fmt.Sprintf("password change against a reflecting peer: ok=%v err=%v", ok, cut(fmt.Sprint(err), 160)))
+		})
+		ls.check("client log (password change)", lb.Bytes())
+		cl4.Destroy()
+		kdc.close()
+		kp.close()
 	}
 	// --- HTTP Basic authenticator: the header value holds the password; it may arrive in any of the encodings
 	// clients produce (padding left out, URL-safe alphabet, white space, junk after it) ---
